@@ -492,7 +492,8 @@ def consumers(rep, prog):
     it = prog.fn("solver::run_iteration")
     for n in walk(it["body"]):
         if n.get("k") == "CXXMemberCallExpr" and n.get("callee") == "cell::apply_internal_forces":
-            a = render(call_args(n)[0])
+            from ..model import expand_text
+            a = expand_text(it, call_args(n)[0]).strip("()")
             if a.endswith("time_step_"):
                 rep.ok("C18.consumers", prog, it, n, "apply_internal_forces(time_step_)")
             else:
